@@ -114,9 +114,12 @@ let run_script (si : int) (ops : opblock list) (do_wf : bool) (do_tree : bool) (
   (* C14: facts established by a successful flush/drop: (node id, names from the root, content) *)
   let facts : (coq_N * coq_N list list * coq_N list) list ref = ref [] in
   let crash_checks = ref 0 in
-  let check_facts oi wi =
-    if !facts <> [] then begin
-      let v = Abs.abs !im in
+  (* the image as of the last device flush (write-back cache that honours flush): what survives a power cut that
+     loses every write issued after that flush *)
+  let durable = ref (Image.img_empty N0) in
+  let check_facts_on (image : Image.image) (which : (coq_N * coq_N list list * coq_N list) list) oi wi =
+    if which <> [] then begin
+      let v = Abs.abs image in
       Stdlib.List.iter (fun (_, path, content) ->
         incr crash_checks;
         let rec split = function [] -> ([], []) | [x] -> ([], x) | x :: r -> let (a, b) = split r in (x :: a, b) in
@@ -131,8 +134,9 @@ let run_script (si : int) (ops : opblock list) (do_wf : bool) (do_tree : bool) (
               | _ -> false) ch in
         if not found then
           Printf.printf "C %d %d %s\n" oi wi (hex_of_bytes (Str.utf8_encode (Stdlib.List.concat (Stdlib.List.map (fun x -> n_of_int 47 :: x) path))))
-      ) !facts
+      ) which
     end in
+  let check_facts oi wi = check_facts_on !im !facts oi wi in
   Stdlib.List.iteri (fun oi b ->
     if not !stop then begin
       (* 0. classification of the writes of this op against the volume as it was before the op *)
@@ -198,9 +202,12 @@ let run_script (si : int) (ops : opblock list) (do_wf : bool) (do_tree : bool) (
           im := Image.img_write !im (n_of_string off) (bytes_of_hex hx);
           incr wi;
           if do_crash && !formatted && (crash_stride <= 1 || !wi mod crash_stride = 0) then check_facts oi !wi
+        | "f" :: _ -> durable := !im
         | _ -> ()) (Stdlib.List.rev b.events);
       let t = b.toks in
       let okp = b.rkind = "ok" in
+      (* outside a session (device set-up, format, mount) the device content counts as durable *)
+      let sync_durable = (match t with ("dev" | "poke" | "fillrange" | "pages" | "format" | "mount" | "load" | "loadraw") :: _ -> true | _ -> false) in
       (match t with
        | ["dev"; _; fill] -> im := Image.img_empty (n_of_string fill); formatted := false; ts := Tree.ts_init
        | "poke" :: off :: hx :: _ -> im := Image.img_write !im (n_of_string off) (bytes_of_hex hx)
@@ -214,6 +221,7 @@ let run_script (si : int) (ops : opblock list) (do_wf : bool) (do_tree : bool) (
        | "format" :: _ when okp && Stdlib.List.exists (fun ev -> match ev with "w" :: _ -> true | _ -> false) b.events -> formatted := true
        | "mount" :: _ :: _ :: o :: _ -> oem := (if o = "table" then oem_table else oem_lossy)
        | _ -> ());
+      if sync_durable then durable := !im;
       if b.rkind = "bad" then ()
       else if b.rkind = "panic" || b.rkind = "hang" || b.rkind = "skipped" then stop := true
       else begin
@@ -330,8 +338,12 @@ let run_script (si : int) (ops : opblock list) (do_wf : bool) (do_tree : bool) (
                      ()
                    | Some nd ->
                      let path = names_to_root !ts nd.Tree.t_parent [] @ [nd.Tree.t_name] in
-                     facts := (nd.Tree.t_id, path, nd.Tree.t_content) :: Stdlib.List.filter (fun (id, _, _) -> id <> nd.Tree.t_id) !facts;
-                     check_facts oi 0
+                     let fact = (nd.Tree.t_id, path, nd.Tree.t_content) in
+                     facts := fact :: Stdlib.List.filter (fun (id, _, _) -> id <> nd.Tree.t_id) !facts;
+                     check_facts oi 0;
+                     (* "... and the storage has been flushed": the fact must hold on what the last device flush made durable
+                        (reported with write index -1) *)
+                     check_facts_on !durable [fact] oi (-1)
                    | None -> ())
                 | None -> ())
              | _ -> ());
